@@ -101,6 +101,11 @@ func (m *machine) intrinsic(name string, fn *ssa.Function, args []value, pos tok
 			return iface{}, true
 		}
 		return m.mkError("close: file already closed"), true
+	case "(*encoding/xml.Decoder).DecodeElement":
+		if m.inInit {
+			break
+		}
+		return m.xmlDecodeElement(fn, args, pos), true
 	case "regexp.MustCompile", "regexp.Compile":
 		pat, ok := args[0].(string)
 		if !ok {
